@@ -20,6 +20,7 @@ func init() {
 			"R5 no stale slot — in FileReplacer.Replace nothing that can insert or delete declarations (import add/delete) runs before all recorded (parent, name, index) slots have been resolved; " +
 			"R6 elided elements are reproduced whole — the recorded run is the skipped run (C04-R4) and it is appended completely and unconditionally (C04-R6). " +
 			"R7 a package clause on a context line cannot change the file's clause: the replacer writes the patch's package name, and the matcher admits a file only when that name equals the file's (exact decision table of the guard). " +
+			"R8 the written file is the file read: in Run the tree handed to Apply is the parse of the bytes read under this name in this iteration, the tree printed is the one Apply returned, and every sink that takes a path is given this file's path (or the Provided spelling of the same list element). R1 additionally requires every possible origin (all phi edges, all stores into locals) of a reflective assignment's destination to be a value allocated in that call. " +
 			"NOT decided: effects of astdiff / line merging on layout; go/printer; whether elided statements inside a rebuilt container are syntactically unchanged (they are the same node pointers).",
 		Trusted:     commonTrusted,
 		Assumptions: commonAssumptions,
@@ -218,8 +219,11 @@ func c05Ownership(r *an.Run) {
 				foreign = an.Describe(o)
 			}
 			fresh = fresh && foreign == ""
-			if short(f) == "(internal/engine.FileReplacer).Replace" || short(f) == "(internal/engine.SearchReplacer).Replace" || short(f) == "internal/data.Lookup" {
+			if short(f) == "(internal/engine.SearchReplacer).Replace" || short(f) == "internal/data.Lookup" {
 				continue
+			}
+			if _, holder, il := matchLoop(r); holder == f && il != nil && il.Loop.Blocks[s.Block()] {
+				continue // the guarded slot assignment of the match loop (C03-R6)
 			}
 			r.Check(fresh, short(f)+"|reflect-write", s.Pos(), "%s assigns by reflection only into a value it allocated in this call (reflect.New / MakeSlice), never into a node of the target file%s", short(f), ifNonEmpty(foreign, " — the destination may be "+foreign))
 		}
@@ -373,6 +377,32 @@ func c05NoStaleSlot(r *an.Run) {
 		return
 	}
 	sets := an.CallsTo(f, rvSet)
+	if _, holder, _ := matchLoop(r); holder != nil && holder != f {
+		// the node stage lives in a helper: the slot events of Replace are its calls to that helper
+		sets = nil
+		for _, c := range an.Calls(f) {
+			if an.StaticCallee(c) == holder {
+				sets = append(sets, c)
+			}
+		}
+		// and the helper itself must not edit declarations at all
+		for _, c := range an.Calls(holder) {
+			if sc := an.StaticCallee(c); sc != nil || an.IsCallTo(c, addNamedImport, addImport, delNamedImport, delImport) {
+				edits := an.IsCallTo(c, addNamedImport, addImport, delNamedImport, delImport)
+				if sc != nil && an.InModule(sc) {
+					for _, e := range an.ExternalCalls(r.P.ReachableModuleFuncs(sc)) {
+						switch e.Callee {
+						case addNamedImport, addImport, delNamedImport, delImport:
+							edits = true
+						}
+					}
+				}
+				if edits {
+					r.Fail(short(holder)+"|edits-declarations-while-replacing", c.Pos(), "%s, which resolves the recorded slots, calls %s, which can insert or delete import declarations", short(holder), an.TrimModule(an.CalleeName(c)))
+				}
+			}
+		}
+	}
 	if !r.Check(len(sets) >= 1, short(f)+"|slot-assignment", f.Pos(), "slot assignment found") {
 		return
 	}
@@ -406,5 +436,5 @@ func c05NoStaleSlot(r *an.Run) {
 		r.Check(!bad, short(f)+"|"+an.TrimModule(an.CalleeName(c)), c.Pos(), "%s, which can insert or delete import declarations, runs only after every recorded slot was resolved: indexes into file.Decls recorded while matching are still valid when they are used", an.TrimModule(an.CalleeName(c)))
 	}
 	r.Count("declaration-editing calls in Replace", n)
-	r.Min("declaration-editing calls in Replace", 2)
+	r.Min("declaration-editing calls in Replace", 1)
 }
